@@ -272,7 +272,9 @@ def rule_main(ctx, repo):
         def _exit(code=None):
             raise SystemExit(code)
         nop = lambda *a, **k: None      # noqa: E731
-        stubs = {"logger.debug": nop, "logger.info": nop, "logger.warning": nop, "logger.error": nop, "set_logger_level": nop,
+        existing = set(cases)
+        stubs = {"glob.glob": lambda pat, *a_, **k_: ([pat] if pat in existing or pat == "*" else []), "os.path.join": lambda a_, b_: b_,
+                 "os.path.isfile": lambda p_: p_ in existing, "logger.debug": nop, "logger.info": nop, "logger.warning": nop, "logger.error": nop, "set_logger_level": nop,
                  "import_pycode": nop, "config_logger": nop, "fix_view_arrays": nop, "sleep": nop, "find_log_path": lambda *a: [],
                  "is_interactive": lambda: False, "elapsed": lambda *a: (0.0, ""), "_find_cases": lambda *a, **k: list(cases),
                  "run_case": lambda file, **kw: outcomes[file], "Process": _Process, "Pool": _Pool, "partial": functools.partial,
@@ -293,27 +295,34 @@ def rule_main(ctx, repo):
             ("multi-proc", "three cases (worker processes, two per batch), the first failed", "*", {"a": S(1), "b": S(0), "c": S(0)}, False),
             ("multi-proc", "three cases (worker processes), clean", "*", {"a": S(0), "b": S(0), "c": S(0)}, False),
             ("not-found", "file given but not found", "zz.xlsx", {}, False),
-            ("not-found", "no file given", "", {}, False)]
+            ("not-found", "no file given", "", {}, False),
+            ("not-found", "two files given, one of them not found (the other one runs clean)", ["a", "missing"], {"a": S(0)}, False),
+            ("wrap", "one case with 256 recorded failures (the process exit status is taken modulo 256)", "a", {"a": S(256)}, False),
+            ("wrap", "two cases (pool) with 128 failures each", "*", {"a": S(128), "b": S(128)}, True)]
     bad, undec = {}, {}
     for kind, what, filename, outcomes, pool in scen:
-        failed = any(o is None or o.exit_code != 0 for o in outcomes.values()) or (filename != "" and not outcomes)
+        names_ = [filename] if isinstance(filename, str) else list(filename)
+        failed = any(o is None or o.exit_code != 0 for o in outcomes.values()) or any(nm not in outcomes and nm not in ("", "*") for nm in names_)
         try:
             got = evaluate(filename, outcomes, pool)
         except Unsupported as ex:
             undec[kind] = str(ex)
             continue
-        if not isinstance(got, int) or isinstance(got, bool) or (got != 0) != failed:
+        if not isinstance(got, int) or isinstance(got, bool) or ((got % 256) != 0) != failed:
             bad.setdefault(kind, []).append("%s: run(cli=True) returns %r" % (what, got))
     texts = {"single": "exit code += system.exit_code, or +1 when no system was produced", "multi": "multi-case (pool) exit codes summed",
              "multi-proc": "multi-case (worker processes): a failing case makes the exit code non-zero",
-             "not-found": "file specified but not found => exit code 1"}
+             "not-found": "every file name given that matches nothing => non-zero exit code",
+             "wrap": "the returned status is non-zero modulo 256 whenever a case failed"}
     for kind in texts:
         if kind in undec:
             ctx.undecided("C17.aggregate", "main.run/%s" % kind, "evaluator: %s" % undec[kind], f.W())
         else:
             ctx.check(kind not in bad, "C17.aggregate", "main.run/%s" % kind, texts[kind], "; ".join(bad.get(kind, [])), f.W())
     t = [tn for tn in f.g.nodes() if f.g.data(tn)["kind"] == "test" and Q.match("cli is True", f.g.data(tn)["ast"].test)]
-    ok = bool(t) and any(src(f.g.data(r)["ast"].value) == "ex_code" and f.g.guarded_by(r, t[0], "true") for r in f.returns())
+    # (the value itself is decided by the evaluation above, which calls run(cli=True); here only: the status leaves through the cli branch)
+    ok = bool(t) and any(f.g.data(r)["ast"].value is not None and "ex_code" in src(f.g.data(r)["ast"].value) and f.g.guarded_by(r, t[0], "true")
+                         for r in f.returns())
     ctx.check(ok, "C17.aggregate", "main.run/cli", "cli returns the exit code", "cli no longer returns the aggregated exit code", f.W())
     # every process entry point hands main()'s return value to the interpreter's exit status: the console script does it through
     # setuptools (`andes = andes.cli:main`); the module entry point (python -m andes) must do it itself
